@@ -1,6 +1,7 @@
 package conc
 
 import (
+	"context"
 	"fmt"
 	"strconv"
 	"strings"
@@ -23,6 +24,50 @@ type VFuncs struct {
 	Do2      map[string]func(f0, f1 func() (int, error)) (int, int, error)
 	Do3      map[string]func(f0, f1, f2 func() (int, error)) (int, int, int, error)
 	Do4      func(f0, f1, f2, f3 func() (int, error)) (int, int, int, int, error)
+}
+
+// the cancellation family of error values (Config.Errs codes 101..103)
+var (
+	errWrappedCanceled = fmt.Errorf("fetching: %w", context.Canceled)
+	doErrValues        = map[int]error{ErrCanceled: context.Canceled, ErrWrappedCanceled: errWrappedCanceled, ErrDeadline: context.DeadlineExceeded}
+)
+
+func init() {
+	vsched.ValTag = func(v any) (int, bool) {
+		if e, ok := v.(error); ok {
+			if c := DoErrCode(e); c > 0 {
+				return c, true
+			}
+		}
+		return 0, false
+	}
+}
+
+// DoErrOf is the error value of code e (0 = nil).
+func DoErrOf(e int) error {
+	if e == 0 {
+		return nil
+	}
+	if v, ok := doErrValues[e]; ok {
+		return v
+	}
+	return DoErr(e)
+}
+
+// DoErrCode maps an error returned by Do back to its code (identity of the value, -1 = none of ours).
+func DoErrCode(err error) int {
+	if err == nil {
+		return 0
+	}
+	if de, ok := err.(DoErr); ok {
+		return int(de)
+	}
+	for c, v := range doErrValues {
+		if v == err {
+			return c
+		}
+	}
+	return -1
 }
 
 // DoErr is the error type the do scenarios return; its tag is what the log shows.
@@ -186,6 +231,13 @@ func VBody(F *VFuncs, c Config, o *Outcome) (func(), error) {
 			if c.NilSlice && len(ins) == 0 {
 				ins = nil
 			}
+			if c.Slice != nil {
+				sl := make([]VC, len(c.Slice))
+				for p, j := range c.Slice {
+					sl[p] = ins[j]
+				}
+				ins = sl
+			}
 			out := fn(ins)
 			vsched.Spawn("cons0", consumer(out, o, 0))
 		}, nil
@@ -235,10 +287,7 @@ func VBody(F *VFuncs, c Config, o *Outcome) (func(), error) {
 							rv[p].Recv()
 						}
 					}
-					if c.Errs[i] != 0 {
-						return DoVal(i), DoErr(c.Errs[i])
-					}
-					return DoVal(i), nil
+					return DoVal(i), DoErrOf(c.Errs[i])
 				}
 			}
 			var err error
@@ -254,13 +303,7 @@ func VBody(F *VFuncs, c Config, o *Outcome) (func(), error) {
 				o.DoVals[0], o.DoVals[1], o.DoVals[2], o.DoVals[3], err = F.Do4(fs[0], fs[1], fs[2], fs[3])
 			}
 			o.DoRet = true
-			if err != nil {
-				if de, ok := err.(DoErr); ok {
-					o.DoErr = int(de)
-				} else {
-					o.DoErr = -1
-				}
-			}
+			o.DoErr = DoErrCode(err)
 		}, nil
 	}
 	return nil, fmt.Errorf("no scenario for %s/%s with %d inputs", c.Sys, c.Variant, len(c.Items))
